@@ -128,6 +128,12 @@ def o_cross(rec: Recorder, case, soft=False):
     oh = lib_hasher(pair, other_rounds)
     if oh.needs_update(lhash) is not True:
         rec.fail(f"C20/needs-update-other-cost/{pair}", "libpass needs_update() is False for a hash of another cost", "cross", case, False, True, soft=soft)
+        return
+    # ... in both directions: a hash that is cheaper and a hash that is costlier than the hasher's configured cost
+    for label, hs_other in (("fresh hash of the other hasher", lib_hash(pair, oh, secret, salt, other_rounds)), ("passlib hash at the other cost", ph.using(**passlib_settings(pair, salt, other_rounds)).hash(secret))):
+        if lh.needs_update(hs_other) is not True:
+            rec.fail(f"C20/needs-update-other-cost/{pair}", f"libpass needs_update() is False for a hash of another cost ({label}: {other_rounds} vs configured {rounds})", "cross", case, False, True, soft=soft)
+            return
 
 
 def bank():
